@@ -6,6 +6,7 @@ import scipy.linalg as la
 from hypothesis import strategies as st
 
 from vlib import util
+from vlib import defaults
 from vlib.core import Part
 
 PROPERTY = "C02"
@@ -544,4 +545,7 @@ PARTS = [
     Part("long_diag", oracle, strategy=lambda: long_freq_cases("diag"), quick=(4, 5), thorough=(8, 25)),
     Part("long_nonprop", oracle, strategy=lambda: long_freq_cases("nonprop"), quick=(4, 8), thorough=(8, 40)),
     Part("solvepsd", oracle_psd, strategy=lambda: freq_cases("diag", psd=True), quick=(4, 80), thorough=(16, 800)),
+    # documented defaults: leaving a keyword out = passing its documented value (vlib/defaults.py)
+    Part("defaults", defaults.make_oracle("C02"), enum=defaults.make_enum(), quick=(1, None), thorough=(1, None),
+         exhaustive=True),
 ]
